@@ -13,6 +13,7 @@ import (
 
 	"github.com/trustbloc/sidetree-core-go/pkg/api/operation"
 	"github.com/trustbloc/sidetree-core-go/pkg/canonicalizer"
+	"github.com/trustbloc/sidetree-core-go/pkg/encoder"
 	"github.com/trustbloc/sidetree-core-go/pkg/hashing"
 	"github.com/trustbloc/sidetree-core-go/pkg/patch"
 	"github.com/trustbloc/sidetree-core-go/pkg/versions/1_0/model"
@@ -119,6 +120,13 @@ func (p *Parser) validateMultihash(mh, alias string) error {
 
 	if !hashing.IsComputedUsingMultihashAlgorithms(mh, p.MultihashAlgorithms) {
 		return fmt.Errorf("%s is not computed with the required hash algorithms: %d", alias, p.MultihashAlgorithms)
+	}
+
+	// hashes are compared as strings (e.g. next commitment against the commitment of the revealed key), so a hash
+	// has to come in the one spelling that encoding produces: the decoder also accepts line breaks and non-zero
+	// unused bits in the last character
+	if decoded, err := encoder.DecodeString(mh); err != nil || encoder.EncodeToString(decoded) != mh {
+		return fmt.Errorf("%s is not a base64url encoded (unpadded) multihash", alias)
 	}
 
 	return nil
